@@ -1677,6 +1677,14 @@ def call_method(eng, recv, r, name, args, kwargs, node, frame):
                 else:
                     eng.assume(z3.Not(isnone_f(res.t)))
                 eng.vf.note_assumption("values stored in mappings read with .get(key, default) are never None")
+            cur = getattr(eng.vf, "current", None)
+            posts = cur.options.get("opaque_posts", {}).get(name) if cur is not None else None
+            if posts and eng.call_depth == 0:
+                env = {f"arg{i}": a for i, a in enumerate(args)}
+                env["result"] = res
+                for p in posts:
+                    eng.assume(eng.eval_spec_bool(p, frame or eng.cur_frame, extra=env))
+                eng.vf.note_assumption(f"on normal return of any .{name}(...): {posts}")
             return res
         con = C.lookup("<opaque>", f"{r.tag}.{name}")
         if con is not None:
